@@ -50,16 +50,20 @@ func msg(s string, binary bool) *eioparser.Packet {
 }
 
 type side struct {
-	v     vsched.Var
-	got   []string
-	close []string
-	errs  []string
+	v      vsched.Var
+	got    []string
+	close  []string
+	errs   []string
+	slowOn string // the application handler takes 6 s (virtual) for this message
 }
 
 func (s *side) onPacket(ps ...*eioparser.Packet) {
 	for _, p := range ps {
 		if p.Type == eioparser.PacketTypeMessage {
 			d := string(p.Data)
+			if s.slowOn != "" && d == s.slowOn {
+				vsched.Sleep(6 * time.Second)
+			}
 			s.v.Do(func() { s.got = append(s.got, d) })
 		}
 	}
@@ -67,11 +71,24 @@ func (s *side) onPacket(ps ...*eioparser.Packet) {
 
 // scenario: nmsg messages each way; the senders run concurrently with the upgrade; `late` messages are
 // sent after the upgrade attempt is over.
+// slowFirstPost: the server's application takes 6 s (longer than the upgrade timeout of 5 s) to handle the
+// client's first message, so a polling POST is in flight - and holds the client's transport lock - while the
+// probe is answered and the transports are to be swapped.
+var slowFirstPost = false
+
 func scenario(f fault, nmsg int, bound int, quietSetup bool) *vx.Scenario {
-	sc := &vx.Scenario{Name: fmt.Sprintf("%s/%d+%d-messages", f.name, nmsg, nmsg), Bound: bound, Horizon: 2 * time.Minute}
+	slow := slowFirstPost
+	nm := fmt.Sprintf("%s/%d+%d-messages", f.name, nmsg, nmsg)
+	if slow {
+		nm += "/first-POST-takes-6s"
+	}
+	sc := &vx.Scenario{Name: nm, Bound: bound, Horizon: 2 * time.Minute}
 	sc.Body = func(e *vsched.Exec) func() vx.Result {
 		vsched.SetExploring(false)
 		var srvSide, cliSide side
+		if slow {
+			srvSide.slowOn = "c0"
+		}
 		var ssock eio.ServerSocket
 		var sv vsched.Var
 		srv := eio.NewServer(func(s eio.ServerSocket) *eio.Callbacks {
@@ -171,11 +188,35 @@ func scenario(f fault, nmsg int, bound int, quietSetup bool) *vx.Scenario {
 				}
 				r.Violate(key(kind+" on its way to the "+who), "%s received %v, sent %v; closes: server %v client %v; errors: server %v client %v", who, g, w, srvSide.close, cliSide.close, srvSide.errs, cliSide.errs)
 			}
-			cmp("server", srvSide.got, wantSrv)
-			cmp("client", cliSide.got, wantCli)
 			sname := eio.VerifServerTransportName(ssock)
 			cname := cs.TransportName()
-			switch f.expect {
+			if slow && f.expect == "upgraded" && tryOKButServerGaveUp(tryOK, sname, cname, srvSide.errs) {
+				// one precisely delimited failure pattern with its own key (a known finding, see DESIGN.md 4.2)
+				r.Violate("upgrade with a POST in flight for longer than the upgrade timeout: the server gives up, the client swaps to the abandoned transport afterwards and the connection is lost",
+					"server transport %s, client transport %s; closes: server %v client %v; errors: server %v client %v; server received %v, client received %v", sname, cname, srvSide.close, cliSide.close, srvSide.errs, cliSide.errs, srvSide.got, cliSide.got)
+				r.Outcome = "known pattern: server gave up, client swapped"
+				return r
+			}
+			cmp("server", srvSide.got, wantSrv)
+			cmp("client", cliSide.got, wantCli)
+			expect := f.expect
+			if slow && expect == "upgraded" && !tryOKButServerGaveUp(tryOK, sname, cname, srvSide.errs) {
+				// the POST in flight delays the client's UPGRADE packet beyond the server's upgrade timeout:
+				// the attempt may legitimately time out; then the connection stays on polling
+				if tryOK && upgradeDone == 1 && sname == "webtransport" && cname == "webtransport" {
+					expect = "upgraded"
+				} else {
+					expect = "stays-polling-after-timeout"
+				}
+			}
+			switch expect {
+			case "stays-polling-after-timeout":
+				if closed {
+					r.Violate(key("upgrade attempt that timed out closed the connection"), "server %v client %v; errors: server %v client %v", srvSide.close, cliSide.close, srvSide.errs, cliSide.errs)
+				}
+				if upgradeDone != 0 || sname != "polling" || cname != "polling" {
+					r.Violate(key("the two sides disagree about the transport after an upgrade attempt that timed out"), "UpgradeDone=%d server transport %s client transport %s; errors: server %v client %v", upgradeDone, sname, cname, srvSide.errs, cliSide.errs)
+				}
 			case "upgraded":
 				if closed {
 					r.Violate(key("connection closed by a fault-free upgrade"), "server %v client %v", srvSide.close, cliSide.close)
@@ -359,6 +400,19 @@ func sioScenario(name string, natt []int, tm sioTiming, bound int) *vx.Scenario 
 	return sc
 }
 
+// tryOKButServerGaveUp: the client got its probe answered (tryUpgradeTo succeeded) and swapped, but the
+// server's upgrade timeout expired before the client's UPGRADE packet could leave (the client's transport
+// lock was held by a POST in flight): the server stayed on polling and closed the candidate.
+func tryOKButServerGaveUp(tryOK bool, sname, cname string, srvErrs []string) bool {
+	gaveUp := false
+	for _, e := range srvErrs {
+		if strings.Contains(e, "upgradeTimeout exceeded") {
+			gaveUp = true
+		}
+	}
+	return tryOK && gaveUp && sname == "polling" && cname == "webtransport"
+}
+
 func scenarios(tier string) []*vx.Scenario {
 	thoroughTier = tier == "thorough"
 	b, n := 2, 2
@@ -375,6 +429,14 @@ func scenarios(tier string) []*vx.Scenario {
 		sc.Shards = 6
 		s = append(s, sc)
 	}
+	// a slow POST in flight across the swap (fault-free upgrade and the two stalls that end in the upgrade timeout)
+	slowFirstPost = true
+	for _, fi := range []int{0, 2, 3} {
+		sc := scenario(faults[fi], n, b-1, true)
+		sc.Shards = 4
+		s = append(s, sc)
+	}
+	slowFirstPost = false
 	for _, x := range []struct {
 		name string
 		natt []int
@@ -418,7 +480,7 @@ func main() {
 	vx.Main(vx.Config{
 		Property:  "C07",
 		Level:     "model_checking",
-		Rule:      "real Engine.IO client and server over the in-process polling link; a client sender and a server sender (numbered text/binary messages) run concurrently with the real upgrade state machines driven over a reliable duplex pipe as candidate transport; all schedules to the deviation bound (thread choices and select choices), for the fault-free upgrade and for every failure step of the candidate (handshake refused, probe ping/pong lost = stall until the upgrade timeout, cut before ping / pong / UPGRADE, UPGRADE lost); the same upgrade under a real Socket.IO server and Manager exchanging events with 0-2 binary attachments: pure schedule exploration and a timed grid (answer to the in-flight poll delayed by 0..4.5 L, 1.5 s, 30 s x emitters starting at k*L/2, k=0..8 x gap 0/L; pipe latency L=100 ms). distinct_nontrivial = deviating schedules",
+		Rule:      "real Engine.IO client and server over the in-process polling link; a client sender and a server sender (numbered text/binary messages) run concurrently with the real upgrade state machines driven over a reliable duplex pipe as candidate transport; all schedules to the deviation bound (thread choices and select choices), for the fault-free upgrade and for every failure step of the candidate (handshake refused, probe ping/pong lost = stall until the upgrade timeout, cut before ping / pong / UPGRADE, UPGRADE lost), also with the server application taking 6 s (longer than the upgrade timeout) to handle the client's first message, i.e. with a polling POST in flight across the swap; the same upgrade under a real Socket.IO server and Manager exchanging events with 0-2 binary attachments: pure schedule exploration and a timed grid (answer to the in-flight poll delayed by 0..4.5 L, 1.5 s, 30 s x emitters starting at k*L/2, k=0..8 x gap 0/L; pipe latency L=100 ms). distinct_nontrivial = deviating schedules",
 		Scenarios: scenarios,
 		Budget: func(tier string) time.Duration {
 			if tier == "thorough" {
